@@ -174,6 +174,14 @@ def shared_id_collections():
     out.append([(k % 3, (k, k % 4, k + 1, k % 4 + 1)) for k in range(12)])
     out.append([(1, (0, 0, 1, 1)), (1.0, (5, 5, 6, 6)), (True, (9, 0, 10, 1)), (2, (5, 0, 6, 1))])
     out.append([("p", (k, 0, k, 10)) for k in range(0, 40, 2)] + [("q", (0, k, 40, k)) for k in range(1, 9, 3)])
+    # entries that differ and *hash* alike (-1 and -2 are the two small integers with one hash):
+    # as identifiers, as coordinates, under one identifier
+    out.append([(7, (-2, 0, -2, 5)), (7, (-1, 0, -1, 5))])
+    out.append([(-1, (-1, 0, -1, 5)), (-2, (-2, 0, -2, 5))])
+    out.append([(-1, (-2, -2, -1, -1)), (-2, (-1, -1, -2 + 2, -2 + 2)), (3, (-2, -1, -1, -1))])
+    for lo, hi in ((-2, -1), (-1, -2)):
+        out.append([(k, (lo * (k % 2) + hi * (1 - k % 2), k - 3, lo * (k % 2) + hi * (1 - k % 2), k))
+                    for k in range(6)])
     return out
 
 
